@@ -285,6 +285,10 @@ func ruleAppTags(w *World, c *Check, rule string) {
 				m = regexpFind(`^"application,(?:explicit,)?tag:(\d+)"$`, a[2])
 			}
 			if m == "" {
+				// the same string built by concatenation
+				m = regexpFind(`^\("application,(?:explicit,)?tag:" \+ strconv\.(?:Itoa|FormatInt)\((\d+)(?:, 10)?\)\)$`, a[2])
+			}
+			if m == "" {
 				c.Fail(rule, fk, "params", w.Pos(InstrPos(ci)), "UnmarshalWithParams is given an application tag that can be read statically", "params operand is "+trunc(a[2], 120))
 				continue
 			}
@@ -401,9 +405,12 @@ func ruleShadows(w *World, c *Check, rule string) {
 					// wrapped raw value: Tag const, Class context-specific (2), IsCompound
 					okRaw := false
 					rawStores := map[string]string{}
-					for _, st := range fa.storesTo(`.*\.(Tag|Class|IsCompound)`) {
-						a := fa.R.R(st.Addr)
-						rawStores[a[strings.LastIndex(a, ".")+1:]] = fa.R.R(st.Val)
+					// (the wrapper may be built by a helper: its stores are read with the caller's arguments)
+					for _, sub := range fa.withNewHelpers() {
+						for _, st := range sub.storesTo(`.*\.(Tag|Class|IsCompound)`) {
+							a := sub.R.R(st.Addr)
+							rawStores[a[strings.LastIndex(a, ".")+1:]] = sub.R.R(st.Val)
+						}
 					}
 					if rawStores["Tag"] == fmt.Sprint(tag) && rawStores["Class"] == "2" && rawStores["IsCompound"] == "true" {
 						okRaw = true
